@@ -113,6 +113,7 @@ type vPlan struct {
 	Kinds    map[string]vHKind `json:"kinds"` // "client/ordinal" or "client/*"
 	Back     bool              `json:"back"`  // backpressure count scenario
 	Seq      bool              `json:"seq"`   // sequential: every action waits for the visible effect of the previous one
+	Addrs    int               `json:"addrs"` // which client address set (vC09Addrs); scripted mode only
 }
 
 func (p *vPlan) kind(client, ord int) vHKind {
@@ -167,6 +168,14 @@ func vC09Corpus() []vPlan {
 		p.Sends = append(p.Sends, mk(0, 48))
 	}
 	ps = append(ps, p)
+	// one interleaved plan per client address set (clients differ in port / IP / IPv6 zone / family / type only)
+	for k := 1; k < vC09AddrKinds; k++ {
+		p = vPlan{Name: fmt.Sprintf("address-set-%d", k), NClients: 4, Addrs: k, Kinds: map[string]vHKind{"2/*": {Mode: vHReadN, N: 2, Buf: 9000}}}
+		for i := 0; i < 16; i++ {
+			p.Sends = append(p.Sends, mk((i*3+i/4)%4, 40+i))
+		}
+		ps = append(ps, p)
+	}
 	// 7: real sockets, read-once handlers and fresh associations
 	p = vPlan{Name: "read-once-then-fresh-real", Real: true, NClients: 2, Kinds: map[string]vHKind{"0/*": {Mode: vHReadN, N: 1, Buf: 9000}}}
 	p.Sends = []vSend{mk(0, 100), mk(1, 200), {Client: 0, Size: 300, Pre: vPreWaitEnded, Expect: 1}, mk(1, 100), {Client: 0, Size: 1400, Pre: vPreWaitEnded, Expect: 1}}
@@ -177,6 +186,7 @@ func vC09Corpus() []vPlan {
 func vC09Random(r *vRng, idx int) vPlan {
 	p := vPlan{Name: fmt.Sprintf("random-%d", idx), NClients: 1 + r.Intn(4), Kinds: map[string]vHKind{}}
 	p.Real = r.Intn(5) == 0
+	p.Addrs = r.Intn(vC09AddrKinds)
 	bufs := []int{9000, 9000, 4096, 1024, 512, 100}
 	small := map[int]bool{}
 	stall := false
@@ -236,7 +246,7 @@ func vC09Random(r *vRng, idx int) vPlan {
 
 // sequential plans: every handler reads and replies, the harness waits for each reply
 func vC09RandomSeq(r *vRng, idx int) vPlan {
-	p := vPlan{Name: fmt.Sprintf("sequential-%d", idx), Seq: true, NClients: 1 + r.Intn(3), Kinds: map[string]vHKind{}}
+	p := vPlan{Name: fmt.Sprintf("sequential-%d", idx), Seq: true, NClients: 1 + r.Intn(3), Addrs: r.Intn(vC09AddrKinds), Kinds: map[string]vHKind{}}
 	bufs := []int{9000, 9000, 4096, 1024, 512, 100}
 	small := map[int]bool{}
 	for c := 0; c < p.NClients; c++ {
@@ -270,6 +280,59 @@ func vC09RandomSeq(r *vRng, idx int) vPlan {
 		p.Sends = append(p.Sends, s)
 	}
 	return p
+}
+
+// ---------------------------------------------------------------- client address sets
+//
+// A client is identified by addr.String() (that is what the association table must be keyed by).
+// Each set makes the clients differ in exactly one component; a client may own several net.Addr
+// values that print the same (4-byte and 16-byte form of an IPv4 address): they are ONE client.
+
+type vC09Addr struct{ s string } // a net.Addr that is not a *net.UDPAddr
+
+func (a vC09Addr) Network() string { return "udp" }
+func (a vC09Addr) String() string  { return a.s }
+
+const vC09AddrKinds = 6
+
+func vC09Addrs(kind, n int) [][]net.Addr {
+	out := make([][]net.Addr, n)
+	ll := net.ParseIP("fe80::1")
+	for c := 0; c < n; c++ {
+		switch kind {
+		default: // one IP, ports differ; both byte forms of the IPv4 address
+			out[c] = []net.Addr{&net.UDPAddr{IP: net.IPv4(10, 9, 0, 1), Port: 4000 + c}, &net.UDPAddr{IP: net.IPv4(10, 9, 0, 1).To4(), Port: 4000 + c}}
+		case 1: // one port, IPs differ
+			out[c] = []net.Addr{&net.UDPAddr{IP: net.IPv4(10, 9, 0, byte(1+c)).To4(), Port: 4000}}
+		case 2: // link-local IPv6: only the zone differs
+			out[c] = []net.Addr{&net.UDPAddr{IP: ll, Port: 5000, Zone: fmt.Sprintf("eth%d", c)}}
+		case 3: // mixed: port / family / zone
+			switch c {
+			case 0:
+				out[c] = []net.Addr{&net.UDPAddr{IP: net.IPv4(10, 9, 0, 1).To4(), Port: 4000}, &net.UDPAddr{IP: net.IPv4(10, 9, 0, 1), Port: 4000}}
+			case 1:
+				out[c] = []net.Addr{&net.UDPAddr{IP: ll, Port: 4000}}
+			case 2:
+				out[c] = []net.Addr{&net.UDPAddr{IP: ll, Port: 4000, Zone: "eth0"}}
+			default:
+				out[c] = []net.Addr{&net.UDPAddr{IP: ll, Port: 4000, Zone: "eth1"}}
+			}
+		case 4: // not UDP addresses at all
+			out[c] = []net.Addr{vC09Addr{fmt.Sprintf("peer/%c", 'a'+c)}}
+		case 5: // global IPv6 with and without zone, and an IPv4 neighbour
+			switch c {
+			case 0:
+				out[c] = []net.Addr{&net.UDPAddr{IP: net.ParseIP("2001:db8::7"), Port: 5000}}
+			case 1:
+				out[c] = []net.Addr{&net.UDPAddr{IP: net.ParseIP("2001:db8::7"), Port: 5000, Zone: "wan0"}}
+			case 2:
+				out[c] = []net.Addr{&net.UDPAddr{IP: net.ParseIP("2001:db8::7"), Port: 5001}}
+			default:
+				out[c] = []net.Addr{vC09Addr{"[2001:db8::7]:5000/x"}}
+			}
+		}
+	}
+	return out
 }
 
 // ---------------------------------------------------------------- event log
@@ -618,7 +681,7 @@ func vC09ExecOnce(plan *vPlan, settle time.Duration) vC09Result {
 	t0 := time.Now()
 	l := newVC09Log()
 	pc := &vC09PC{log: l, done: make(chan struct{}), clients: map[string]int{}}
-	var addrs []net.Addr
+	var addrs [][]net.Addr
 	var socks []*net.UDPConn
 	if plan.Real {
 		inner, err := net.ListenPacket("udp", "127.0.0.1:0")
@@ -632,16 +695,16 @@ func vC09ExecOnce(plan *vPlan, settle time.Duration) vC09Result {
 				panic(err)
 			}
 			socks = append(socks, s)
-			addrs = append(addrs, s.LocalAddr())
+			addrs = append(addrs, []net.Addr{s.LocalAddr()})
 			pc.clients[s.LocalAddr().String()] = c
 		}
 	} else {
 		pc.in = make(chan vC09Dgram)
-		for c := 0; c < plan.NClients; c++ {
-			// one IP, different ports: the association key must be address AND port
-			a := &net.UDPAddr{IP: net.IPv4(10, 9, 0, 1), Port: 4000 + c}
-			addrs = append(addrs, a)
-			pc.clients[a.String()] = c
+		addrs = vC09Addrs(plan.Addrs, plan.NClients)
+		for c, as := range addrs {
+			for _, a := range as {
+				pc.clients[a.String()] = c
+			}
 		}
 	}
 	run := &vC09Run{plan: plan, log: l, pc: pc}
@@ -716,7 +779,7 @@ func vC09ExecOnce(plan *vPlan, settle time.Duration) vC09Result {
 			}
 		} else {
 			select {
-			case pc.in <- vC09Dgram{b, addrs[s.Client]}:
+			case pc.in <- vC09Dgram{b, addrs[s.Client][id%len(addrs[s.Client])]}:
 			case <-time.After(250 * time.Millisecond):
 				// the server does not take more datagrams (a handler is not reading): stop feeding
 				blocked = true
